@@ -84,6 +84,10 @@ CORPUS = [
       (False, [], None)], {}),
     ([(False, [dict(callee=1, scope="NONE"), dict(callee=1, same=True), dict(callee=2), dict(callee=2, same=True)], None),
       (True, [], None), (False, [dict(callee=3), dict(callee=3, same=True)], ["r0"]), (False, [], ["r0"])], {"r0": 1}),
+    # one call node reached under two non-empty contexts (the leaf ignores the context), then CSE-only duplicates under the second
+    # context at increasing depth: a later one finds its twin finalized and is served only by the same-execution lookup
+    ([(False, [dict(callee=3, ctx={"a": 1}), dict(callee=1)], None), (False, [dict(callee=3, ctx={"a": 2}, scope="CSE"), dict(callee=2)], None),
+      (False, [dict(callee=3, ctx={"a": 2}, scope="CSE"), dict(callee=3, ctx={"a": 1}, scope="CSE")], None), (False, [], None)], {}),
     # same call under two contexts and without
     ([(False, [dict(callee=1, ctx={"a": 1}), dict(callee=1), dict(callee=1, ctx={"a": 1})], None), (False, [dict(callee=2)], None),
       (False, [], None, True)], {}),
